@@ -225,6 +225,10 @@ type svcRunner struct {
 	serving bool
 	cancel  context.CancelFunc
 	nextID  int
+	nsvc    int
+	nreg    int
+	ident   [4]string
+	descs   map[string]string
 }
 
 func (r *svcRunner) settle() {
@@ -373,10 +377,14 @@ func (r *svcRunner) do(op sOp) {
 		r.log.Ev("BindEnd", tr.M{"res": res})
 	case "Register":
 		r.log.Ev("RegisterStart", tr.M{"i": op.I})
-		err := r.svc.RegisterInterface(&plainIface{name: op.I, desc: "interface " + op.I + "\nmethod Ping() -> ()\n"})
+		desc := fmt.Sprintf("# \u00e9\U0001d11e <>& attempt %d\ninterface %s\nmethod Ping() -> ()\n", r.nreg, op.I)
+		r.nreg++
+		err := r.svc.RegisterInterface(&plainIface{name: op.I, desc: desc})
 		res := "ok"
 		if err != nil {
 			res = "refused"
+		} else {
+			r.descs[op.I] = desc
 		}
 		r.log.Ev("RegisterEnd", tr.M{"i": op.I, "res": res})
 	case "End":
@@ -405,6 +413,11 @@ func (r *svcRunner) endClient(c *svcClient, how string) {
 		c.cli.SetReadDeadline(time.Now().Add(5 * time.Second))
 		c.reader.ReadBytes(0) // EOF expected
 		c.cli.Close()
+	case "introspect":
+		// the client-side helpers over this connection (C13)
+		r.introspect(c)
+		r.log.Ev("ClientEnd", tr.M{"c": c.c, "how": how})
+		c.cli.Close()
 	default:
 		// an orderly client: one complete call, its reply, close
 		c.cli.Write(append([]byte(`{"method":"org.varlink.service.GetInfo"}`), 0))
@@ -419,9 +432,52 @@ func (r *svcRunner) endClient(c *svcClient, how string) {
 	c.state = "ended"
 }
 
+// introspect logs what GetInfo / GetInterfaceDescription report, as tokens: a description is
+// reported as "d:<name>" iff it is byte-for-byte the text registered under <name>.
+func (r *svcRunner) introspect(c *svcClient) {
+	conn := varlink.VerifNewConnection(c.cli)
+	ctx, cancel := context.WithTimeout(context.Background(), 5*time.Second)
+	defer cancel()
+	var vendor, product, version, url string
+	var names []string
+	err := conn.GetInfo(ctx, &vendor, &product, &version, &url, &names)
+	ev := tr.M{"c": c.c, "names": names, "fields_ok": err == nil && vendor == r.ident[0] && product == r.ident[1] && version == r.ident[2] && url == r.ident[3]}
+	if names == nil {
+		ev["names"] = []string{}
+	}
+	descs := []string{}
+	for _, n := range names {
+		d, err := conn.GetInterfaceDescription(ctx, n)
+		tok := "mismatch"
+		if err != nil {
+			tok = "error"
+		} else if want, ok := r.descs[n]; ok && want == d {
+			tok = "d:" + n
+		} else if n == "org.varlink.service" && len(d) > 0 {
+			tok = "d:" + n
+		}
+		descs = append(descs, tok)
+	}
+	ev["descs"] = descs
+	// names that are not listed must be refused with InvalidParameter("interface")
+	unlisted := true
+	for _, n := range []string{"no.such", "i9", "", "org.varlink.servic", "I1"} {
+		_, err := conn.GetInterfaceDescription(ctx, n)
+		var ip *varlink.InvalidParameter
+		if !errors.As(err, &ip) || ip.Parameter != "interface" {
+			unlisted = false
+		}
+	}
+	ev["unlisted_ok"] = unlisted
+	r.log.Ev("Introspect", ev)
+}
+
 func (r *svcRunner) runSchedule(ops []sOp) {
-	svc, _ := varlink.NewService("ven", "prod", "ver", "http://u")
+	r.nsvc++
+	r.ident = [4]string{fmt.Sprintf("ven\u00e9%d", r.nsvc), "prod <&>\u2028", "", "http://u/\U0001d11e"}
+	svc, _ := varlink.NewService(r.ident[0], r.ident[1], r.ident[2], r.ident[3])
 	svc.RegisterInterface(&plainIface{name: "t.e", desc: "interface t.e\nmethod Fail() -> ()\n"})
+	r.descs = map[string]string{"t.e": "interface t.e\nmethod Fail() -> ()\n"}
 	r.svc = svc
 	r.ls = nil
 	r.cur = nil
